@@ -18,6 +18,8 @@ import (
 	"context"
 	"encoding/json"
 	"fmt"
+	"reflect"
+	"strings"
 	"time"
 
 	"github.com/99designs/gqlgen/graphql"
@@ -126,6 +128,54 @@ func c02Exec(p *Probe, c *C02Case) (obs C02Obs) {
 		}
 	}
 	return obs
+}
+
+// CanonAddr is Canon for values that need not be addressable (a struct passed
+// by value to a resolver): Canon takes the address of Omittable fields.
+func CanonAddr(v reflect.Value) string {
+	if v.IsValid() && !v.CanAddr() {
+		p := reflect.New(v.Type())
+		p.Elem().Set(v)
+		v = p.Elem()
+	}
+	return Canon(v)
+}
+
+// C02FillStub installs in every resolver of the stub a function that logs a
+// Start event carrying the canonical form of the argument values it received
+// and returns the zero value (the args probe has argument-carrying fields on
+// Query only).
+func (u *Universe) C02FillStub(stub any) {
+	sv := reflect.ValueOf(stub).Elem()
+	st := sv.Type()
+	for i := 0; i < st.NumField(); i++ {
+		grp := st.Field(i)
+		if grp.Type.Kind() != reflect.Struct || !strings.HasSuffix(grp.Name, "Resolver") {
+			continue
+		}
+		gv := sv.Field(i)
+		for j := 0; j < grp.Type.NumField(); j++ {
+			f := grp.Type.Field(j)
+			if f.Type.Kind() != reflect.Func {
+				continue
+			}
+			ft := f.Type
+			gv.Field(j).Set(reflect.MakeFunc(ft, func(in []reflect.Value) []reflect.Value {
+				ctx := in[0].Interface().(context.Context)
+				out := []reflect.Value{reflect.Zero(ft.Out(0)), reflect.Zero(errType)}
+				run := RunFrom(ctx)
+				if run == nil {
+					return out
+				}
+				parts := make([]string, 0, len(in)-1)
+				for _, a := range in[1:] {
+					parts = append(parts, CanonAddr(a))
+				}
+				run.Log(Event{E: "Start", P: PathKey(graphql.GetFieldContext(ctx).Path()), A: strings.Join(parts, ",")})
+				return out
+			}))
+		}
+	}
 }
 
 func init() {
